@@ -98,6 +98,7 @@ struct Bounds {
     int S = 1;  // spurious wake-ups
     int R = 1;  // stale reads-from choices
     int W = 1;  // weak-CAS spurious failures
+    int D = -1;  // total deviations of any kind (-1: same as P, i.e. the iterated level)
     int max_steps = 4000;
     int yield_limit = 6;
 };
